@@ -805,8 +805,11 @@ def run_bounded(ctx):
                     c.fail(" | ".join(res["values"][:3]))
                 passed(G_VALUES, f)
 
+    from concurrent.futures.process import BrokenProcessPool
+    from runtime.harness import _run_alone, WorkerDied
     batch = workers * 24
-    with ProcessPoolExecutor(max_workers=workers) as ex:
+    ex = ProcessPoolExecutor(max_workers=workers)
+    try:
         for start in range(0, len(cases), batch):
             if time.time() - t0 > budget:
                 msg = (f"c02: time budget of {budget:.0f}s reached after {judged} of {len(cases)} cases; "
@@ -814,9 +817,24 @@ def run_bounded(ctx):
                 ctx.note(msg)
                 print("NOTE " + msg, flush=True)
                 break
-            for res in ex.map(run_case, cases[start:start + batch], chunksize=6):
+            chunk = cases[start:start + batch]
+            try:
+                results = list(ex.map(run_case, chunk, chunksize=6))
+            except BrokenProcessPool:
+                # the real library killed a worker: re-run this batch one case per fresh process; the killing case is a failing
+                # case (the interpreter must never die), not a crash of the checker
+                ex.shutdown(wait=False, cancel_futures=True)
+                ex = ProcessPoolExecutor(max_workers=workers)
+                results = [_run_alone(run_case, c) for c in chunk]
+            for case, res in zip(chunk, results):
                 judged += 1
+                if isinstance(res, WorkerDied):
+                    with Case(ctx, G_STRUCT, dict(case, died=True), contract=CONTRACT[G_STRUCT]) as c:
+                        c.fail(res.what())
+                    continue
                 judge(res)
+    finally:
+        ex.shutdown(wait=False, cancel_futures=True)
     if engine:
         raise RuntimeError(f"{len(engine)} cases could not be judged (engine failure); first: {engine[0]}")
     ctx.note(f"c02: {judged} writes, {raised} raised (nothing to judge)")
